@@ -131,6 +131,13 @@ def r3(repo, res):
     dumped = {root(e) for e in w}
     # attributes of the sample read outside sam.py
     read_outside = {}
+    # locals bound to a Sample(...) construction hold the sample, whatever they are called
+    sample_names = {"sample"}
+    for mname, m in repo.modules.items():
+        for n in ast.walk(m.tree):
+            if isinstance(n, ast.Assign) and len(n.targets) == 1 and isinstance(n.targets[0], ast.Name) and isinstance(n.value, ast.Call) \
+                    and call_name(n.value).split(".")[-1] == "Sample":
+                sample_names.add(n.targets[0].id)
     for mname, m in repo.modules.items():
         if mname == "sam":
             continue
@@ -138,7 +145,7 @@ def r3(repo, res):
             if isinstance(n, ast.Attribute) and isinstance(n.ctx, ast.Load):
                 b = n.value
                 is_sample = (isinstance(b, ast.Attribute) and b.attr == "sam") or \
-                            (isinstance(b, ast.Name) and b.id in ("sample",))
+                            (isinstance(b, ast.Name) and b.id in sample_names)
                 if is_sample:
                     read_outside.setdefault(n.attr, n)
     res.floor("C17.R3", "sample attributes read by stages / genotype()", len(read_outside), 5)
